@@ -280,3 +280,176 @@ def drnview1(ctx, prog, cfg, rule="DRNVIEW1"):
                   "the un-yielded view reads `range` (%s), the immutable record of the requested hole, which still covers "
                   "elements that were already yielded" % uses_range,
                   "no load of Drain.range", cfg)
+
+
+# ---------------------------------------------------------------------------------------------------------------
+# BACKFILL2 — geometry of the back-fill in Drain::drop
+#
+# After the droppers ran, the logical slots [range.start, range.end) are dead (yielded or destroyed) and the logical
+# slots [range.end, buf_size) are the live tail. Drain::drop closes the gap by a chunked copy loop carried by three
+# locals: a source cursor, a destination cursor and a counter. Whatever the chunking, the copy is right only if
+#     destination starts at logical range.start            (the first dead slot)
+#     source      starts at logical range.end              (the first live slot behind the hole)
+#     source start + counter == buf_size                   (the moved block ends where the old contents end)
+#     restored size == destination start + counter         (prefix + moved tail)
+#     each iteration advances both cursors by, and reduces the counter by, exactly the copied count
+# All five are equalities between linear forms over the Drain's fields; they are decided by normalising the MIR
+# expressions (Range::len = end - start, `.add(a).add(b)` = offset a + b), not by matching source text.
+_DF = {("range", "start"), ("range", "end"), ("iter", "start"), ("iter", "end"), ("buf_size",)}
+
+
+def _dlin(f, e, sign=1, acc=None):
+    if acc is None:
+        acc = {}
+    e = mir.strip_casts(f.deep_simplify(e))
+    if isinstance(e, tuple) and e:
+        if e[0] == "int":
+            acc[1] = acc.get(1, 0) + sign * e[1]
+            return acc
+        if e[0] == "binop" and e[1] in ("Add", "Sub", "AddUnchecked", "SubUnchecked", "AddWithOverflow", "SubWithOverflow"):
+            _dlin(f, e[2], sign, acc)
+            _dlin(f, e[3], sign if e[1].startswith("Add") else -sign, acc)
+            return acc
+        if e[0] == "field" and e[2] in (0, "0") and isinstance(e[1], tuple) and e[1] and e[1][0] == "binop" and e[1][1].endswith("WithOverflow"):
+            return _dlin(f, e[1], sign, acc)
+        if e[0] == "load" and e[1] == ("param", 1) and tuple(e[2]) in _DF and e[3][0] == "entry":
+            k = ".".join(e[2])
+            acc[k] = acc.get(k, 0) + sign
+            return acc
+        if e[0] == "load" and tuple(e[2]) == ("start",) and e[3][0] == "entry":
+            acc["buf.start"] = acc.get("buf.start", 0) + sign
+            return acc
+        if e[0] in ("call", "pcall") and str(e[1]).endswith("ExactSizeIterator::len") and len(e[2]) == 1:
+            a = e[2][0]
+            if isinstance(a, tuple) and a[0] == "ref" and isinstance(a[1], tuple) and a[1][0] == "place" and a[1][1] == ("param", 1) \
+                    and tuple(a[1][2]) in (("range",), ("iter",)) and not common.field_stores(f, a[1][2][0]):
+                r = a[1][2][0]
+                acc[r + ".end"] = acc.get(r + ".end", 0) + sign
+                acc[r + ".start"] = acc.get(r + ".start", 0) - sign
+                return acc
+    acc[repr(e)] = acc.get(repr(e), 0) + sign
+    return acc
+
+
+def _lk(a):
+    return tuple(sorted((str(k), v) for k, v in a.items() if v != 0))
+
+
+def _lshow(a):
+    out = []
+    for k, v in sorted(a.items(), key=lambda kv: str(kv[0])):
+        if v == 0:
+            continue
+        t = str(k) if k != 1 else ""
+        if len(t) > 40:
+            t = "<opaque>"
+        out.append(("+" if v > 0 else "-") + (str(abs(v)) if (abs(v) != 1 or k == 1) else "") + t)
+    return " ".join(out) or "0"
+
+
+def _cursor_offset(f, e):
+    """a CircularSlicePtr value as the linear sum of the `.add()` increments over `CircularSlicePtr::new(items)`"""
+    acc = {}
+    e = f.deep_simplify(e)
+    while isinstance(e, tuple) and e and e[0] == "call" and e[1] == "CircularSlicePtr::add" and len(e[2]) == 2:
+        _dlin(f, e[2][1], 1, acc)
+        e = f.deep_simplify(e[2][0])
+    if isinstance(e, tuple) and e and e[0] == "call" and e[1] == "CircularSlicePtr::new":
+        return acc
+    return None
+
+
+def _phi_local(e, head):
+    for s in mir.walk(e):
+        if isinstance(s, tuple) and len(s) == 3 and s[0] == "phi" and s[1] == head and isinstance(s[2], tuple) and s[2][0] == "L":
+            return s[2][1]
+    return None
+
+
+def backfill2(ctx, prog, cfg, rule="BACKFILL2"):
+    from . import termrule
+
+    f = ctx.need_fn(prog, DROP, rule)
+    if f is None:
+        return
+    loops = [(latch, head) for (latch, head) in f.back_edges(False)]
+    copies = [b for b, t in f.calls(False) if mir.callee_path(t) in ("core::ptr::copy", "core::ptr::copy_nonoverlapping")]
+    stores = common.field_stores(f, "size")
+    if len({h for _, h in loops}) != 1 or len(copies) != 1 or len(stores) != 1:
+        ctx.violate(rule, f.short, "one copy loop, one restore", f.loc,
+                    "Drain::drop no longer has the form `one chunked copy loop, then one store to size` (%d loop head(s), %d "
+                    "ptr::copy site(s), %d size store(s)): the back-fill geometry cannot be decided" % (len({h for _, h in loops}), len(copies), len(stores)), cfg)
+        return
+    head = loops[0][1]
+    body = set()
+    for latch, h in loops:
+        body |= termrule.natural_loop(f, latch, h)
+    cb = copies[0]
+    src, dst, cnt = [f.deep_simplify(a) for a in f.call_args(cb)]
+    ls, ld = _phi_local(src, head), _phi_local(dst, head)
+    lr = None
+    for s in mir.walk(cnt):
+        if isinstance(s, tuple) and len(s) == 3 and s[0] == "phi" and s[1] == head and isinstance(s[2], tuple) and s[2][0] == "L" and s[2][1] not in (ls, ld):
+            lr = s[2][1]
+    if ls is None or ld is None or lr is None or ls == ld or cb not in body:
+        ctx.violate(rule, f.short, "loop-carried source, destination, counter", f.loc,
+                    "the ptr::copy in Drain::drop is not driven by three loop-carried locals (source %s, destination %s, counter %s)" % (ls, ld, lr), cfg)
+        return
+    preds = f.preds(False).get(head, [])
+    init, step = {}, {}
+    for var in (ls, ld, lr):
+        for p in preds:
+            n = len(f.blocks[p]["stmts"]) + 1
+            e = f.deep_simplify(f.version_expr(f.version_at(p, n, ("L", var))))
+            (step if p in body else init).setdefault(var, []).append(e)
+    S0 = [_cursor_offset(f, e) for e in init.get(ls, [])]
+    D0 = [_cursor_offset(f, e) for e in init.get(ld, [])]
+    R0 = [_dlin(f, e) for e in init.get(lr, [])]
+    if len(S0) != 1 or len(D0) != 1 or len(R0) != 1 or S0[0] is None or D0[0] is None:
+        ctx.violate(rule, f.short, "initial cursors", f.loc,
+                    "the initial source/destination cursors of the back-fill are not `CircularSlicePtr::new(items).add(..)` chains", cfg)
+        return
+    S0, D0, R0 = S0[0], D0[0], R0[0]
+    sz = _dlin(f, stores[0][2])
+
+    def minus(a, b):
+        r = dict(a)
+        for k, v in b.items():
+            r[k] = r.get(k, 0) - v
+        return r
+
+    def plus(a, b):
+        r = dict(a)
+        for k, v in b.items():
+            r[k] = r.get(k, 0) + v
+        return r
+
+    base = {"buf.start": 1}
+    Sl, Dl = minus(S0, base), minus(D0, base)
+    ctx.check(_lk(Dl) == _lk({"range.start": 1}), rule, f.short, "destination starts at the first dead slot", f.loc,
+              "the back-fill writes from logical offset `%s`, not from `range.start`: live elements in front of the hole are "
+              "overwritten without being destroyed, or dead slots are left inside the restored region" % _lshow(Dl),
+              "destination cursor = start + range.start", cfg)
+    ctx.check(_lk(Sl) == _lk({"range.end": 1}), rule, f.short, "source starts at the first live slot behind the hole", f.loc,
+              "the back-fill reads from logical offset `%s`, not from `range.end`: slots of the drained range (already handed out "
+              "or destroyed) are copied back into the buffer and destroyed a second time, and the real tail is lost" % _lshow(Sl),
+              "source cursor = start + range.end", cfg)
+    ctx.check(_lk(plus(Sl, R0)) == _lk({"buf_size": 1}), rule, f.short, "moved block ends at the old size", f.loc,
+              "source offset + count = `%s`, not `buf_size`: the back-fill moves slots beyond the old contents or leaves live "
+              "elements behind" % _lshow(plus(Sl, R0)), "source + remaining = buf_size", cfg)
+    ctx.check(_lk(plus(Dl, R0)) == _lk(sz), rule, f.short, "restored size = prefix + moved tail", f.loc,
+              "the restored size `%s` is not destination offset + count `%s`: the header disagrees with what the back-fill "
+              "made contiguous" % (_lshow(sz), _lshow(plus(Dl, R0))), "size = range.start + remaining", cfg)
+    # per-iteration steps
+    for var, what in ((ls, "source"), (ld, "destination")):
+        for e in step.get(var, []):
+            ok = isinstance(e, tuple) and e and e[0] == "call" and e[1] == "CircularSlicePtr::add" and len(e[2]) == 2 \
+                and _phi_local(e[2][0], head) == var and f.deep_simplify(e[2][1]) == cnt
+            ctx.check(ok, rule, f.short, "%s cursor advances by the copied count" % what, f.loc,
+                      "the %s cursor of the back-fill is not advanced by exactly the count given to ptr::copy" % what,
+                      "cursor' = cursor.add(copy count)", cfg)
+    for e in step.get(lr, []):
+        e = mir.strip_casts(e)
+        ok = isinstance(e, tuple) and e and e[0] == "binop" and e[1] in ("Sub", "SubUnchecked") and _phi_local(e[2], head) == lr and f.deep_simplify(e[3]) == cnt
+        ctx.check(ok, rule, f.short, "counter decreases by the copied count", f.loc,
+                  "the counter of the back-fill is not reduced by exactly the count given to ptr::copy", "remaining' = remaining - copy count", cfg)
